@@ -82,3 +82,31 @@ N("every access through a local alias of self.addr", ["C19"],
     "        here = self.addr\n        try:\n            request = self.factory.windowSubscribe[here][response.msgId]\n        except KeyError as e:")])
 N("fresh containers via literals", ["C19"],
   [(FAC, "        v = self.windowPublish.get(addr, dict() )", "        v = self.windowPublish.get(addr, {})")])
+
+# ---------------------------------------------------------------- C20
+B("setWindowSize accepts 0", ["C20"], [(BASE, "        if not (0 < n <= self.MAX_WINDOW):", "        if not (0 <= n <= self.MAX_WINDOW):")], {"C20": ["G-INTERVAL"]})
+B("TIMEOUT_MAX_INITIAL doubled", ["C20"], [(BASE, "    TIMEOUT_MAX_INITIAL = 1024", "    TIMEOUT_MAX_INITIAL = 2048")], {"C20": ["G-INTERVAL"]})
+B("keepalive check dropped", ["C20"],
+  [(BASE, "        if not ( 0 <= request.keepalive <= 65535):\n            raise KeepaliveValueError(request.keepalive)\n", "")], {"C20": ["G-INTERVAL"]})
+B("willQoS < 4", ["C20"], [(BASE, "        if not ( 0<= request.willQoS < 3):", "        if not ( 0<= request.willQoS < 4):")], {"C20": ["G-INTERVAL"]})
+B("QoSValueError no longer a ValueError", ["C20"],
+  [("src/mqtt/error.py", "class QoSValueError(ValueError):", "class QoSValueError(Exception):")], {"C20": ["G-EXC", "G-FAILRET"]})
+B("queued before the encoder accepted it", ["C20"],
+  [(PS, "        try:\n            request.encode()\n        except Exception as e:\n            return defer.fail(e)\n\n        self.factory.queuePublishTx[self.addr].append(request)\n",
+    "        self.factory.queuePublishTx[self.addr].append(request)\n        try:\n            request.encode()\n        except Exception as e:\n            return defer.fail(e)\n\n")],
+  {"C20": ["G-ATOMIC"]})
+B("undefined name in a raise (D5 re-introduced)", ["C20"],
+  [(PS, "            raise TopicTypeError(type(request.topics))\n        for (topic, qos)", "            raise TopicTypeError(type(topic))\n        for (topic, qos)")], {"C20": ["G-EXC"]})
+B("spurious keepalive rejection", ["C20"],
+  [(BASE, "        if (request.version == v31) and len(request.clientId) > 23:",
+    "        if request.keepalive > 1000:\n            raise KeepaliveValueError(request.keepalive)\n        if (request.version == v31) and len(request.clientId) > 23:")],
+  {"C20": ["G-INTERVAL", "G-SPURIOUS"]})
+B("password-without-user check dropped", ["C20"],
+  [(BASE, "        if request.username is None and request.password is not None:\n            raise MissingUserError()\n", "")], {"C20": ["G-COMBO"]})
+B("subscribe qos < 4", ["C20"], [(PS, "            if not ( 0<= qos < 3):\n                raise QoSValueError(\"subscribe\", qos)", "            if not ( 0<= qos < 4):\n                raise QoSValueError(\"subscribe\", qos)")], {"C20": ["G-INTERVAL"]})
+B("state changed before validation in doConnect", ["C20"],
+  [(BASE, "        try:\n            self._checkConnect(request)\n            pdu = request.encode()", "        self.state = self.CONNECTING\n        try:\n            self._checkConnect(request)\n            pdu = request.encode()")],
+  {"C20": ["G-ATOMIC"]})
+N("window guard in the or-form", ["C20"],
+  [(BASE, "        if not (0 < n <= self.MAX_WINDOW):", "        if n < 1 or n > self.MAX_WINDOW:")])
+N("publish qos guard with <= 2", ["C20"], [(PS, "        if not ( 0<= request.qos < 3):", "        if not (0 <= request.qos <= 2):")])
